@@ -1143,6 +1143,51 @@ def app_blocked(sx, call, enders):
     return [st, r if st == 'exc' or r is None or isinstance(r, bool) else "value"]
 
 
+def window_flood(sx, rw, count, how):
+    """a peer that does not care about the receive window: `count` in-sequence
+    I PDUs (more than the window announced with the CC) arrive on an
+    established connection before the application reads - one per link
+    iteration or all in one AGF PDU - then the application reads until
+    nothing is left.  Every recv()/poll() returns data, None/False or raises
+    nfc.llcp.Error; the link thread's calls return; nothing else escapes."""
+    llc = llcmod.LogicalLinkController(sec=False)
+    llc.cfg['send-miu'], llc.cfg['recv-lto'] = 128, 100
+    llc.cfg['llcp-dpc'], llc.cfg['send-wks'] = 0, 1
+    llc.link.ESTABLISHED = True
+    lst = llc.socket(DLC)
+    llc.setsockopt(lst, nfc.llcp.SO_RCVBUF, rw)
+    llc.bind(lst, APP_ADDR)
+    llc.listen(lst, 1)
+    llc.dispatch(pdu.Connect(APP_ADDR, APP_PEER, 128, 1))
+    dlc = llc.accept(lst)
+    for i in range(3):
+        llc.collect()
+    entry = "window-flood:rw=%d:%s" % (rw, how)
+    ipdus = [pdu.Information(APP_ADDR, APP_PEER, i % 16, 0, sx.mkbytes([i, sx.byte("d%d" % i)], False))
+             for i in range(count)]
+    if how == "agf":
+        frames = [pdu.AggregatedFrame(0, 0, ipdus)]
+    else:
+        frames = ipdus
+    for f in frames:
+        guarded(sx, entry + ":dispatch", (), llc.dispatch, pdu.decode(pdu.encode(f)))
+        guarded(sx, entry + ":collect", (), llc.collect)
+    sx.reach("window-flood:flooded")
+    got = 0
+    for k in range(count + 2):
+        st, ready = guarded(sx, entry + ":poll", (nfc.llcp.Error,), llc.poll, dlc, "recv", 0.0)
+        if st == 'exc' or not ready:
+            break
+        st, r = guarded(sx, entry + ":recv", (nfc.llcp.Error,), llc.recv, dlc)
+        if st == 'exc' or r is None:
+            break
+        got += 1
+        guarded(sx, entry + ":collect", (), llc.collect)
+    if got:
+        sx.reach("window-flood:application-read")
+    return [got]
+
+
 # ----------------------------------------------------------------------------
 # (6) ContactlessFrontend.connect() around it, with a scripted driver
 # ----------------------------------------------------------------------------
@@ -1659,6 +1704,11 @@ def partitions(tier):
     # (7) application calls parked by the peer
     for call in sorted(APP_CASES):
         add("app-blocked:%s" % call, "app_blocked", call=call, enders=sorted(APP_CASES[call]))
+    # (7b) a peer that ignores the receive window
+    for rw in (1, 2, 15):
+        for how in ("single", "agf"):
+            add("window-flood:%d:%s" % (rw, how), "window_flood", rw=rw,
+                count=min(rw + 4, 18) if rw < 15 else 18, how=how)
     # (6) connect()
     for role in ("initiator", "target"):
         for shape in ("none", "raw:6", "ffm:0", "ffm:3", "ffm:4", "tlv:1", "tlv:2", "tlv:3",
@@ -1707,7 +1757,7 @@ def partitions(tier):
     return P
 
 
-MUST_REACH = ["pdu:decode-error", "pdu:decoded", "pdu:nested-agf-done",
+MUST_REACH = ["window-flood:flooded", "window-flood:application-read", "pdu:decode-error", "pdu:decoded", "pdu:nested-agf-done",
               "dep:pdu-protocol-error", "dep:pdu-decoded", "dep:pdu-not-mine",
               "dep:frame-error", "dep:frame-decoded",
               "dep:initiator-exchanged", "dep:initiator-exchange-error",
